@@ -160,6 +160,9 @@ def run(tier, seed):
         scripts += [rand_history(rng, keys, rng.randint(6, 30), [0, 1, 2, 19, 20, 21, 59, 60, 61], tail=150)
                     for _ in range(15 if tier == "quick" else 150)]
         jobs_random.append({"cfg": kbd, "params": params, "tag": "T60_20:%s" % v, "scripts": scripts})
+    # the documented short spellings of the variant keywords denote the same variants (the monitor's parameters come
+    # from the description, so a keyword mapped to another variant is rejected)
+    jobs_random += spelling_twins(jobs_random)
     for label, jobs in (("witness", witness_jobs), ("random", jobs_random)):
         if not jobs:
             continue
